@@ -345,11 +345,8 @@ section WalletLogic
 open VlsModel.Wallet
 
 /-- the two facts `validate_sweep` obtains from the wallet for one output, computed by the model of `impl Wallet for Node`
-    from the script, the request's wallet path, the key-derivation style and the allowlist -/
-def sweepOutOfScript (style : Style) (allow : List Allowable) (path : List Nat) (s : Wallet.Script) : SweepOut :=
-  { canSpend := canSpend style path s,
-    allow := match allowlistContains allow s path with
-      | .yes => .yes | .no => .no | .panic => .panic }
+    (`Sweep.outOfScript`, which the driver model also uses: the harness sends script descriptors, not facts) -/
+abbrev sweepOutOfScript := Sweep.outOfScript
 
 /-- **C09 (destinations)**: an output that passes `validate_sweep` pays one of the three segwit forms of the node's own
     key at the request's wallet path, or a listed script, or a p2wpkh / p2pkh / p2tr child at that path of an allowlisted
@@ -358,7 +355,7 @@ theorem C09_dest_scripts (style : Style) (allow : List Allowable) (path : List N
     (h : DestOk (sweepOutOfScript style allow path s)) :
     (path ≠ [] ∧ PathFits style path ∧ SpendableForm s (.account path)) ∨ .script s ∈ allow ∨
       (path ≠ [] ∧ path.any hardened = false ∧ ∃ j, .xpub j ∈ allow ∧ XpubForm s (xpubKey j path)) := by
-  unfold DestOk sweepOutOfScript at h
+  unfold DestOk sweepOutOfScript Sweep.outOfScript at h
   rcases h with h | ⟨_, h⟩
   · exact Or.inl ((canSpend_true style path s).mp h)
   · have hy : allowlistContains allow s path = .yes := by
